@@ -827,29 +827,34 @@ func ruleC12Rollback(c *Ctx) {
 	if fn == nil {
 		return
 	}
-	// the cleanup really removes the snapshot name (otherwise nothing to protect)
-	removes := false
-	for _, cl := range Closures(fn) {
-		CR := NewRenderer(cl)
-		for _, rm := range CallsTo(cl, fRep+"rmDisk") {
-			if strings.Contains(callRender(CR, rm), "^var(string#1)") {
-				removes = true
-			}
-		}
-	}
 	nh := CallsTo(fn, fRep+"createNewHead")
 	if len(nh) != 1 {
 		c.Bad(rule, FnName(fn)+" | structure", "", "expected one createNewHead call", nil)
 		return
 	}
+	PR := NewRenderer(fn)
+	snap := PR.V(nh[0].(*ssa.Call).Call.Args[2])
+	// the cleanup really removes the snapshot name (otherwise nothing to protect): some rmDisk of
+	// the deferred literal is given neither the old head nor the new head's name
+	removes := false
+	for _, cl := range Closures(fn) {
+		CR := NewRenderer(cl)
+		for _, rm := range CallsTo(cl, fRep+"rmDisk") {
+			arg := rm.(*ssa.Call).Call.Args[1]
+			as := CR.V(arg)
+			if strings.Contains(as, "^"+snap) || (strings.HasPrefix(as, "^var(string") && !capturedHolds(fn, cl, arg, "$0.info.Head") && !strings.Contains(as, ".Name")) {
+				removes = true
+			}
+		}
+	}
 	if !removes {
 		c.OK(rule, FnName(fn)+" | cleanup does not unlink the snapshot name", c.P.InstrPos(nh[0]), "nothing to protect", false)
 		return
 	}
-	noSnap := eqAtom(`""`, "var(string#1)")
+	noSnap := eqAtom(`""`, snap)
 	c.Guard(rule, fn, nh, "first effect", nil,
-		atom("snapshot data file does not exist yet", noSnap, notNilAtom("os.Stat("+fRep+"diskPath($0,var(string#1)))#1")),
-		atom("snapshot metadata file does not exist yet", noSnap, notNilAtom("os.Stat("+fRep+`diskPath($0,(var(string#1) + ".meta")))#1`)))
+		atom("snapshot data file does not exist yet", noSnap, notNilAtom("os.Stat("+fRep+"diskPath($0,"+snap+"))#1")),
+		atom("snapshot metadata file does not exist yet", noSnap, notNilAtom("os.Stat("+fRep+`diskPath($0,(`+snap+` + ".meta")))#1`)))
 }
 
 func ruleC12Publish(c *Ctx) {
